@@ -203,6 +203,131 @@ pub fn gen_case(tape: Vec<u8>) -> Case {
     Case { tx: txgen::gen_case(&mut u, max), key_hex: hex_lower(&key) }
 }
 
+// ---------------------------------------------------------------- histories of near copies
+
+/// A transaction, then near copies of it (one field changed, everything else - kind, lengths, list shape - the
+/// same), then the first one again, all parsed, signed and encoded one after the other on one thread and each
+/// judged against its own reference: what is produced for a transaction may not depend on what was encoded before
+/// (a buffer, cache or memo keyed by too little would show here and nowhere in unrelated random cases).
+#[derive(Clone, Debug, Serialize, Deserialize)]
+pub struct HistCase {
+    pub key_hex: String,
+    pub steps: Vec<TxCase>,
+    pub changes: Vec<String>,
+}
+
+fn near_copy(m: &crate::refimpl::tx::TxModel, u: &mut U) -> (crate::refimpl::tx::TxModel, &'static str) {
+    let mut n = m.clone();
+    let bump = |x: &crate::refimpl::u256::Big| if x.bit_len() >= 256 { crate::refimpl::u256::Big::from_u128(7) } else { x.add_small(1) };
+    let what = match u.below(12) {
+        0 => {
+            n.nonce = bump(&n.nonce);
+            "nonce+1"
+        }
+        1 => {
+            n.value = bump(&n.value);
+            "value+1"
+        }
+        2 => {
+            n.gas = bump(&n.gas);
+            "gas+1"
+        }
+        3 if !n.data.is_empty() => {
+            let i = u.below(n.data.len());
+            n.data[i] ^= 1 << u.below(8);
+            "calldata-bit-flipped"
+        }
+        4 if !n.data.is_empty() => {
+            n.data = u.bytes(n.data.len());
+            "calldata-same-length-other-bytes"
+        }
+        5 => {
+            n.data.push(u.byte());
+            "calldata-one-byte-longer"
+        }
+        6 if n.to.is_some() => {
+            let mut a = n.to.unwrap();
+            a[u.below(20)] ^= 1 << u.below(8);
+            n.to = Some(a);
+            "recipient-bit-flipped"
+        }
+        7 if n.access_list.iter().any(|(_, k)| !k.is_empty()) => {
+            let cands: Vec<usize> = (0..n.access_list.len()).filter(|i| !n.access_list[*i].1.is_empty()).collect();
+            let e = cands[u.below(cands.len())];
+            let k = u.below(n.access_list[e].1.len());
+            n.access_list[e].1[k][u.below(32)] ^= 1 << u.below(8);
+            "storage-key-bit-flipped"
+        }
+        8 if !n.access_list.is_empty() => {
+            let e = u.below(n.access_list.len());
+            n.access_list[e].0[u.below(20)] ^= 1 << u.below(8);
+            "access-list-address-bit-flipped"
+        }
+        9 if n.access_list.len() >= 2 => {
+            let i = u.below(n.access_list.len() - 1);
+            n.access_list.swap(i, i + 1);
+            "access-list-entries-swapped"
+        }
+        10 if n.chain_id.is_some() => {
+            let c = n.chain_id.clone().unwrap();
+            n.chain_id = Some(if c.bit_len() >= 200 { crate::refimpl::u256::Big::from_u128(5) } else { c.add_small(1) });
+            "chainId+1"
+        }
+        _ => {
+            n.gas_price = bump(&n.gas_price);
+            n.max_fee = bump(&n.max_fee);
+            "fee+1"
+        }
+    };
+    (n, what)
+}
+
+fn gen_history(tape: Vec<u8>) -> HistCase {
+    use crate::gen::txgen::{plain_number, render_with, shape_of};
+    let mut u = U::new(&tape);
+    let key = gen_valid_scalar(&mut u);
+    let first = txgen::gen_case(&mut u, 120);
+    // (the document text may spell the key with \u escapes: look at the parsed keys)
+    let has_list_key = serde_json::from_str::<Value>(&first.doc).ok().and_then(|v| v.get("accessList").cloned()).is_some();
+    let shape = shape_of(&first.model, has_list_key);
+    let mut steps = vec![first.clone()];
+    let mut changes = vec!["original".to_string()];
+    let mut cur = first.model.clone();
+    for _ in 0..2 + u.below(3) {
+        // mostly a near copy of the ORIGINAL (so that a memo of it is the nearest wrong answer), sometimes of the previous step
+        let base = if u.ratio(2, 3) { first.model.clone() } else { cur.clone() };
+        let (m, what) = near_copy(&base, &mut u);
+        let doc = render_with(&m, shape, &first.to_form, &mut u, &mut |_, x, u| plain_number(x, u)).render();
+        steps.push(TxCase { doc, model: m.clone(), to_form: first.to_form.clone() });
+        changes.push(what.to_string());
+        cur = m;
+    }
+    steps.push(first);
+    changes.push("original again".into());
+    HistCase { key_hex: hex_lower(&key), steps, changes }
+}
+
+fn judge_history(c: &HistCase, cls: &mut Classifier) -> Verdict {
+    let key: [u8; 32] = match unhex(&c.key_hex).and_then(|k| k.try_into().ok()) {
+        Some(k) if secp::is_valid_secret(&k) => k,
+        _ => return fail("valid key", c.key_hex.clone(), "bad replay case"),
+    };
+    let mut scratch = Classifier::default();
+    for (i, s) in c.steps.iter().enumerate() {
+        check_tx(&s.doc, &s.model, &key, &mut scratch).map_err(|mut e| {
+            e.note = format!("step {i} ({}) of the history {:?}, each step encoded after the previous ones on one thread: {}", c.changes.get(i).map(String::as_str).unwrap_or("?"), c.changes, e.note);
+            e
+        })?;
+    }
+    for ch in &c.changes {
+        cls.label(&format!("history/{ch}"));
+    }
+    cls.label("history");
+    cls.nontrivial(&(c.key_hex.as_str(), c.steps.iter().map(|s| s.doc.as_str()).collect::<Vec<_>>()));
+    cls.sample("history", || json!({"changes": c.changes, "first": crate::engine::truncate(&c.steps[0].doc, 400)}));
+    Ok(())
+}
+
 // ---------------------------------------------------------------- documents HEAD may or may not accept
 
 /// Shapes the property does not oblige the tool to accept but whose meaning is fixed IF it does ("for every
@@ -359,12 +484,17 @@ fn judge_lenient(c: &LenientCase, cls: &mut Classifier) -> Verdict {
 }
 
 pub fn run(ctx: &mut Ctx) {
-    ctx.rule = "transaction record of kind {legacy without/with chain id, EIP-2930, EIP-1559 with/without accessList key}, numeric fields from the 256-bit boundary strategy, recipient absent/null/address, calldata lengths {0,1,2,31,32,55,56,57,255,256,uniform<=2000}, access lists of 0..4 entries x 0..4 slots with repeats, rendered to JSON with shuffled keys; key from the scalar strategy; signature = key.sign(signing_message()). Oracle: reference model (kind rule from keys, unsigned payload digest, signed payload bytes), strict canonical-RLP decode with field-by-field comparison, v/yParity formula, sender recovery over the reference digest. A second sub-check renders documents the tool need not accept but whose meaning is fixed if it does (redundant gasPrice next to fee-market fields, foreign JSON-RPC keys, access-list entries in object notation, a duplicated key, only one of the two fee-market fields next to a gasPrice: refused or payload type 0x02): refused -> nothing asserted, accepted -> the same oracle applies. JSON text is re-spelled with random white space and string escapes. Non-trivial: not one of the four pinned near-empty transactions; distinct by (document, key).".into();
+    ctx.rule = "transaction record of kind {legacy without/with chain id, EIP-2930, EIP-1559 with/without accessList key}, numeric fields from the 256-bit boundary strategy, recipient absent/null/address, calldata lengths {0,1,2,31,32,55,56,57,255,256,uniform<=2000}, access lists of 0..4 entries x 0..4 slots with repeats, rendered to JSON with shuffled keys; key from the scalar strategy; signature = key.sign(signing_message()). Oracle: reference model (kind rule from keys, unsigned payload digest, signed payload bytes), strict canonical-RLP decode with field-by-field comparison, v/yParity formula, sender recovery over the reference digest. A second sub-check renders documents the tool need not accept but whose meaning is fixed if it does (redundant gasPrice next to fee-market fields, foreign JSON-RPC keys, access-list entries in object notation, a duplicated key, only one of the two fee-market fields next to a gasPrice: refused or payload type 0x02): refused -> nothing asserted, accepted -> the same oracle applies. A third sub-check runs histories: a transaction, 2-4 near copies (one field changed: nonce, value, gas, fees, chain id, one bit / all bytes / the length of the calldata, one bit of the recipient, of a storage key or of an access-list address, two entries swapped) and the first one again, one after the other on one thread, each judged against its own reference. JSON text is re-spelled with random white space and string escapes. Non-trivial: not one of the four pinned near-empty transactions; distinct by (document, key).".into();
     ctx.assumptions = vec!["legacy chain ids are kept <= floor((2^256-37)/2) here; larger ones are C11's subject".into()];
     ctx.replay_known_and_regressions(&replay);
     let n = ctx.tier.pick(60_000, 1_000_000);
     ctx.run_prop("encode", n, || crate::gen::tape(1200).prop_map(gen_case), judge);
     ctx.run_prop("lenient", ctx.tier.pick(20_000, 300_000), || crate::gen::tape(1200).prop_map(gen_lenient), judge_lenient);
+    let nh = ctx.tier.pick(4000, 100_000);
+    ctx.run_prop("history", nh, || crate::gen::tape(1600).prop_map(gen_history), judge_history);
+    for ch in ["storage-key-bit-flipped", "calldata-same-length-other-bytes", "nonce+1", "chainId+1"] {
+        ctx.floor(&format!("history/{ch}"), nh as u64, 0.03);
+    }
     let total = (n as u64).max(1); // floors are relative to the "encode" cases: the fuzz executions that follow are not classified
     crate::fuzz::run_for(ctx);
     for shape in ["legacy-nochain", "legacy-chain", "eip2930", "eip1559"] {
@@ -383,6 +513,7 @@ pub fn replay(sub: &str, case: &Value) -> Option<Verdict> {
     match sub {
         "encode" => Some(replay_as::<Case>(case, judge)),
         "lenient" => Some(replay_as::<LenientCase>(case, judge_lenient)),
+        "history" => Some(replay_as::<HistCase>(case, judge_history)),
         _ => None,
     }
 }
